@@ -62,7 +62,7 @@ func (o goArrayObject) setValue(index int64, value Value) bool {
 	if !exists {
 		return false
 	}
-	reflectValue, err := value.toReflectValue(reflect.Indirect(o.value).Type().Elem())
+	reflectValue, err := value.toElementValue(reflect.Indirect(o.value).Type().Elem())
 	if err != nil {
 		panicConversionError(err)
 	}
